@@ -142,9 +142,9 @@ def transformInfoAll (cl : ChanList) : List Transform → Except TrErr (ChanList
 
 /-! ## RCT -/
 
-/-- `inverse_row_*_base::<TYPE>` on one sample triple, wrapping at `sb` bits -/
-def rctInvSample (sb : SBits) (ty : Nat) (a b c : Int) : Int × Int × Int :=
-  let wr := wrap sb
+/-- `inverse_row_*_base::<TYPE>` on one sample triple; `wr` is the wrapping of the sample type
+(`wrap sb` for the code as it runs, `id` for exact integer arithmetic) -/
+def rctInvSampleG (wr : Int → Int) (ty : Nat) (a b c : Int) : Int × Int × Int :=
   if ty == 6 then
     let tmp := wr (a - c / 2)
     let e := wr (c + tmp)
@@ -156,6 +156,9 @@ def rctInvSample (sb : SBits) (ty : Nat) (a b c : Int) : Int × Int × Int :=
     let f := if ty % 2 == 1 then wr (c + a) else c
     let e := if ty / 2 == 1 then wr (b + a) else if ty / 2 == 2 then wr (b + wr (a + f) / 2) else b
     (d, e, f)
+
+def rctInvSample (sb : SBits) (ty : Nat) (a b c : Int) : Int × Int × Int :=
+  rctInvSampleG (wrap sb) ty a b c
 
 /-- `inverse_permute` -/
 def rctInvPermute (perm : Nat) (t : α × α × α) : α × α × α :=
@@ -229,33 +232,44 @@ def tendency (sb : SBits) (a b c : Int) : Int :=
     x
   else 0
 
-/-- inverse squeeze of one line: `avg` (length ⌈n/2⌉) and `res` (length ⌊n/2⌋) → `n` samples -/
+/-- inverse squeeze of one line: `avg` (length ⌈n/2⌉) and `res` (length ⌊n/2⌋) → `n` samples.
+`wr` = wrapping of the sample type, `T` = the tendency function. -/
+def unsqueezeGo (wr : Int → Int) (T : Int → Int → Int → Int) : List Int → List Int → Int → List Int
+  | a :: as, r :: rs, left =>
+    let nextAvg := as.headD a
+    let diff := wr (r + T left a nextAvg)
+    let first := wr (a + tdiv diff 2)
+    let second := wr (first - diff)
+    first :: second :: unsqueezeGo wr T as rs second
+  | a :: _, [], _ => [a]
+  | [], _, _ => []
+
+def unsqueezeLineG (wr : Int → Int) (T : Int → Int → Int → Int) (avg res : List Int) : List Int :=
+  unsqueezeGo wr T avg res (avg.headD 0)
+
 def unsqueezeLine (sb : SBits) (avg res : List Int) : List Int :=
-  let wr := wrap sb
-  let rec go : List Int → List Int → Int → List Int
-    | a :: as, r :: rs, left =>
-      let nextAvg := as.headD a
-      let diff := wr (r + tendency sb left a nextAvg)
-      let first := wr (a + tdiv diff 2)
-      let second := wr (first - diff)
-      first :: second :: go as rs second
-    | a :: _, [], _ => [a]
-    | [], _, _ => []
-  go avg res (avg.headD 0)
+  unsqueezeLineG (wrap sb) (tendency sb) avg res
+
+/-- forward squeeze: averages of the pairs (a lone last sample is its own average) -/
+def squeezeAvgs : List Int → List Int
+  | a :: b :: rest => ((a + b + (if a > b then 1 else 0)) / 2) :: squeezeAvgs rest
+  | [a] => [a]
+  | [] => []
+
+/-- forward squeeze: residuals, given the averages and the sample left of the current pair -/
+def squeezeRes (T : Int → Int → Int → Int) : List Int → List Int → Int → List Int
+  | a :: b :: rest, m :: ms, left =>
+    let nextAvg := ms.headD m
+    (a - b - T left m nextAvg) :: squeezeRes T rest ms b
+  | _, _, _ => []
 
 /-- forward squeeze of one line over `Int`: returns `(avg, res)` -/
+def squeezeLineG (T : Int → Int → Int → Int) (line : List Int) : List Int × List Int :=
+  let av := squeezeAvgs line
+  (av, squeezeRes T line av (av.headD 0))
+
 def squeezeLine (sb : SBits) (line : List Int) : List Int × List Int :=
-  let rec avgs : List Int → List Int
-    | a :: b :: rest => ((a + b + (if a > b then 1 else 0)) / 2) :: avgs rest
-    | [a] => [a]
-    | [] => []
-  let av := avgs line
-  let rec ress : List Int → List Int → Int → List Int
-    | a :: b :: rest, m :: ms, left =>
-      let nextAvg := ms.headD m
-      (a - b - tendency sb left m nextAvg) :: ress rest ms b
-    | _, _, _ => []
-  (av, ress line av (av.headD 0))
+  squeezeLineG (tendency sb) line
 
 def Chan.col (c : Chan) (x : Nat) : List Int := (List.range c.h).map fun y => c.get x y
 
